@@ -119,7 +119,8 @@ def judge(ctx, trace, stage, stats=True):
             ctx.log("MISMATCH", brief(m))
     if inst:
         raise vlib.Infra("driver/plan inconsistency (%d events), e.g. %s" % (len(inst), brief(inst[0])))
-    if expect and not real:
+    if expect and not [m for m in real if signature(m) != KNOWN_EMPTY_EXPONENT]:
+        # only as-built choices / coverage expectations differ (next to the known finding): the model is out of date, no verdict
         raise vlib.Infra("as-built choice or coverage expectation no longer holds - model out of date (%d events), e.g. %s"
                          % (len(expect), brief(expect[0])))
     if expect:
